@@ -146,6 +146,13 @@ def check_shim(seed=0):
              (fin,)),
             ('median3', lambda x: P.median(x[:3]), (fin,)),
             ('median4', lambda x: P.median(x[3:7]), (fin,)),
+            ('isclose', lambda x, y: P.isclose(x, y), (f32, f32 * np.float32(
+                1.000001))),
+            ('isclose_tiny', lambda x, y: P.isclose(x, y),
+             (np.array([6.1e-9, 1e-7, 0.0, 1.0, -3e-9], np.float32),
+              np.array([9.1e-9, 2e-7, 1e-9, 1.00002, 3e-9], np.float32))),
+            ('append', lambda x: P.append(x, 0), (u8,)),
+            ('concatenate', lambda x, y: P.concatenate([x, y]), (i8, i8)),
             ]
   with warnings.catch_warnings():
     warnings.simplefilter('ignore')
